@@ -129,10 +129,17 @@ def install(reg, src):
             f2 = Frame(fr.module, {}, fr, fr.finfo)
             ip.assign_target(g.target, S.get(k), f2)
             acc = z3.BoolVal(True)
-            for cnd in g.ifs:
-                v = ip.ev(cnd, f2)
-                t = ip.as_bool_term(v)
-                acc = z3.And(acc, t if not isinstance(t, bool) else z3.BoolVal(t))
+            # the predicate is evaluated as a term (no forking per element): a guard makes comparisons, `is None` tests and
+            # boolean operators hand back terms; anything that would need a fork puts the function out of reach
+            kt_ = k if not isinstance(k, int) else z3.IntVal(k)
+            ip.path.guards.append(z3.And(kt_ >= 0, kt_ < n))
+            try:
+                for cnd in g.ifs:
+                    v = ip.ev(cnd, f2)
+                    t = ip.as_bool_term(v)
+                    acc = z3.And(acc, t if not isinstance(t, bool) else z3.BoolVal(t))
+            finally:
+                ip.path.guards.pop()
             return acc
         base = sym.fresh("filtered", sym.Ref)
         m = sym.fn("LEN_any", sym.Ref, sym.I)(base)
@@ -153,7 +160,15 @@ def install(reg, src):
             return S.get(src_idx)
         res = SSeq(m, get, "list", "filtered", tag=("filter", base, S, pred, ast.unparse(e)))
         if "domain" in ast.unparse(e):
-            ip.path.ghost["lp_vars_filter"] = {"exists": ex(n), "seq": res}
+            # the property's own notion of "non-continuous variable" (taken from the statement, not from the filter the code
+            # happens to apply): the declared domain is not 'continuous'
+            def spec_pred(k):
+                dom_ = ip.getattr(S.get(k), "domain")          # the domain field as stored when the filter runs
+                if isinstance(dom_, str):
+                    return z3.BoolVal(dom_ != "continuous")
+                return ip.models.name_term(dom_) != sym.lit("continuous")
+            spec_ex = named_exists(ip, "EXNONCONT", [base], n, spec_pred)
+            ip.path.ghost["lp_vars_filter"] = {"exists": spec_ex(n), "code_exists": ex(n), "seq": res}
         return res
     reg.filtered_comprehension_hook = filtered
 
